@@ -20,6 +20,10 @@ def cases(tier):
                 cfg2 = {'scenario': 'adversarial', 'n': n, 'x': x, 'actions': ['VerifyOnly'],
                         'members': [{'m': m, 'cap': cap, 'rounds': ilog2(n * m), 'promises': [('sym' if j % 2 == pat else None) for j in range(m)], 'free_gens': True, 'ctx_elem': True}]}
                 out.append({'cfg': cfg2, 'kind': 'verifier', 'name': 'verifier n%d m%d c%d x%d promises at %s positions' % (n, m, cap, x, 'even' if pat == 0 else 'odd')})
+    # every member of a batch is bound to ITS OWN caller context, commitments, promises and prover messages (not to those of the first member)
+    for ms in ([1, 2, 1], [2, 1]) if tier == 'quick' else ([1, 2, 1], [2, 1], [1, 1, 4, 2]):
+        members = [{'m': mm, 'cap': max(ms), 'rounds': ilog2(4 * mm), 'promises': ['sym'] + [None] * (mm - 1), 'ctx_elem': True} for mm in ms]
+        out.append({'cfg': {'scenario': 'adversarial', 'n': 4, 'x': 2, 'members': members, 'actions': ['VerifyOnly']}, 'kind': 'verifier', 'name': 'verifier batch m=%s (n4 x2)' % ms})
     # inside a batch every member's own generators must be the ones that are hashed: a member (largest, not first) with other H / G_k is refused
     for order in ([0, 1], [1, 0], [0, 1, 0]):
         mem = [{'m': 1, 'cap': 1, 'rounds': 2, 'free_gens': False}, {'m': 2, 'cap': 2, 'rounds': 3, 'free_gens': True}]
@@ -61,65 +65,71 @@ def analyse(ctx, case, run, S):
                        '%s: not refused before the comparison (%s): the member\'s own generators are neither hashed nor checked' % (case['name'], v['action']), cfg, 'verify_not_refused',
                        {'replay_cfg': rc})
         return
-    info = run.out['members'][0]
-    mc = cfg['members'][0]
-    n, x, m, rounds = cfg['n'], cfg['x'], mc['m'], mc['rounds']
-    v = run.out['verify'][0]
-    ids = member_challenges(run, v['logs_after'][0])['ids']
-    blobs = run.core['blobs']
-    el = lambda e: 'elem_%d' % blobs[info['elems'][e]]['k']
-    data = {}
-    data['transcript context'] = 'elem_%d' % blobs[info['ctx_elem']]['k']
-    data['H'] = free_atom_of_point(run, info['gens']['h'])
-    for k, pid in enumerate(info['gens']['g']):
-        data['G_%d' % k] = free_atom_of_point(run, pid)
-    for j, pid in enumerate(info['commitments']):
-        data['commitment %d' % j] = free_atom_of_point(run, pid)
-    for j, p in enumerate(info['promises']):
-        if p.get('p_sym'):
-            data['promise %d' % j] = 'p_0_%d' % j
-    before_y = dict(data)
-    before_y['A'] = el(x)
-    stage = [('y', ids['y'], dict(before_y)), ('z', ids['z'], dict(before_y))]
-    cur = dict(before_y)
-    for j in range(rounds):
-        cur['L_%d' % j] = el(x + 5 + 2 * j)
-        cur['R_%d' % j] = el(x + 6 + 2 * j)
-        stage.append(('e_%d' % j, ids['rounds'][j], dict(cur)))
-    cur['A1'] = el(x + 1)
-    cur['B'] = el(x + 2)
-    stage.append(('e', ids['e'], dict(cur)))
-    ctx.expect(len(ids['rounds']) == rounds, 'C04:round-challenges', 'number of round challenges != number of L/R pairs', cfg, None)
-    inj = Injectivity(run)
-    universe = set(cur.values())
-    for cname, lid, deps in stage:
-        for dname, atom in sorted(deps.items()):
-            asserts, atoms = inj.query(('log', lid), {atom}, universe)
-            rd = {'n': n, 'x': x, 'm': m, 'cap': mc['cap'], 'datum': dname, 'rounds': rounds}
-            ctx.solve(S, 'log-injective', '%s: challenge %s depends on %s' % (case['name'], cname, dname), asserts, cfg=cfg,
-                      key='C04:%s-not-bound' % dname.split(' ')[0].split('_')[0], pred='challenges_unchanged', detail=rd)
-    # integer fields: bit length, extension degree, aggregation factor are absorbed as their own 8-byte little-endian encodings, in that order after the generators
-    ap = lv.appends(ids['y'])
-    def lit_of(label):
-        for _, e in ap:
-            if e['label'] == label:
-                return e
-        return None
-    for label, val, what in (('N', n, 'bit length'), ('T', x, 'extension degree'), ('M', m, 'aggregation factor')):
-        e = lit_of(label)
-        ok = e is not None and e['len'] == 8 and e['pieces'] == [{'lit': int(val).to_bytes(8, 'little').hex()}]
-        ctx.expect(ok, 'C04:%s-not-bound' % what.split(' ')[0], '%s: the %s is not absorbed as LE64(%d) under label %s' % (case['name'], what, val, label), cfg, 'challenges_unchanged',
-                   {'n': n, 'x': x, 'm': m, 'cap': mc['cap'], 'datum': what, 'rounds': rounds})
-    # one promise entry per commitment, in order; a None promise is absorbed as the value 0 (None == Some(0) and nothing else)
-    pe = [e for _, e in ap if e['label'] == 'vi - minimum_value']
-    okp = len(pe) == m
-    for j, p in enumerate(info['promises']):
-        if not okp:
-            break
-        want = ('u64var', 'p_0_%d' % j) if p.get('p_sym') else ('lit', int(p['p'] or 0).to_bytes(8, 'little').hex())
-        okp = okp and len(pe[j]['pieces']) == 1 and lv.piece_desc(pe[j]['pieces'][0]) == want
-    ctx.expect(okp, 'C04:promise-position-not-bound', '%s: the transcript does not hold one promise entry per commitment in order (absent = 0): positions are not bound' % case['name'],
-               cfg, 'challenges_unchanged', {'n': n, 'x': x, 'm': m, 'cap': mc['cap'], 'datum': 'promise-position', 'rounds': rounds})
+    nmem = len(cfg['members'])
+    for mi in range(nmem):
+        tag = '' if nmem == 1 else ' [batch member %d]' % mi
+        # replay descriptor for a member inside a batch: the same datum altered for THAT member of an honest batch of the same shape
+        brd = {} if nmem == 1 else {'batch_ms': [mm['m'] for mm in cfg['members']], 'member': mi}
+        info = run.out['members'][mi]
+        mc = cfg['members'][mi]
+        n, x, m, rounds = cfg['n'], cfg['x'], mc['m'], mc['rounds']
+        v = run.out['verify'][0]
+        ids = member_challenges(run, v['logs_after'][mi])['ids']
+        blobs = run.core['blobs']
+        el = lambda e: 'elem_%d' % blobs[info['elems'][e]]['k']
+        data = {}
+        data['transcript context'] = 'elem_%d' % blobs[info['ctx_elem']]['k']
+        if mc.get('free_gens'):
+            data['H'] = free_atom_of_point(run, info['gens']['h'])
+            for k, pid in enumerate(info['gens']['g']):
+                data['G_%d' % k] = free_atom_of_point(run, pid)
+        for j, pid in enumerate(info['commitments']):
+            data['commitment %d' % j] = free_atom_of_point(run, pid)
+        for j, p in enumerate(info['promises']):
+            if p.get('p_sym'):
+                data['promise %d' % j] = 'p_%d_%d' % (mi, j)
+        before_y = dict(data)
+        before_y['A'] = el(x)
+        stage = [('y', ids['y'], dict(before_y)), ('z', ids['z'], dict(before_y))]
+        cur = dict(before_y)
+        for j in range(rounds):
+            cur['L_%d' % j] = el(x + 5 + 2 * j)
+            cur['R_%d' % j] = el(x + 6 + 2 * j)
+            stage.append(('e_%d' % j, ids['rounds'][j], dict(cur)))
+        cur['A1'] = el(x + 1)
+        cur['B'] = el(x + 2)
+        stage.append(('e', ids['e'], dict(cur)))
+        ctx.expect(len(ids['rounds']) == rounds, 'C04:round-challenges', 'number of round challenges != number of L/R pairs', cfg, None)
+        inj = Injectivity(run)
+        universe = set(cur.values())
+        for cname, lid, deps in stage:
+            for dname, atom in sorted(deps.items()):
+                asserts, atoms = inj.query(('log', lid), {atom}, universe)
+                rd = dict({'n': n, 'x': x, 'm': m, 'cap': mc['cap'], 'datum': dname, 'rounds': rounds}, **brd)
+                ctx.solve(S, 'log-injective', '%s%s: challenge %s depends on %s' % (case['name'], tag, cname, dname), asserts, cfg=cfg,
+                          key='C04:%s-not-bound' % dname.split(' ')[0].split('_')[0], pred='challenges_unchanged', detail=rd)
+        # integer fields: bit length, extension degree, aggregation factor are absorbed as their own 8-byte little-endian encodings, in that order after the generators
+        ap = lv.appends(ids['y'])
+        def lit_of(label):
+            for _, e in ap:
+                if e['label'] == label:
+                    return e
+            return None
+        for label, val, what in (('N', n, 'bit length'), ('T', x, 'extension degree'), ('M', m, 'aggregation factor')):
+            e = lit_of(label)
+            ok = e is not None and e['len'] == 8 and e['pieces'] == [{'lit': int(val).to_bytes(8, 'little').hex()}]
+            ctx.expect(ok, 'C04:%s-not-bound' % what.split(' ')[0], '%s: the %s is not absorbed as LE64(%d) under label %s' % (case['name'], what, val, label), cfg, 'challenges_unchanged',
+                       {'n': n, 'x': x, 'm': m, 'cap': mc['cap'], 'datum': what, 'rounds': rounds})
+        # one promise entry per commitment, in order; a None promise is absorbed as the value 0 (None == Some(0) and nothing else)
+        pe = [e for _, e in ap if e['label'] == 'vi - minimum_value']
+        okp = len(pe) == m
+        for j, p in enumerate(info['promises']):
+            if not okp:
+                break
+            want = ('u64var', 'p_%d_%d' % (mi, j)) if p.get('p_sym') else ('lit', int(p['p'] or 0).to_bytes(8, 'little').hex())
+            okp = okp and len(pe[j]['pieces']) == 1 and lv.piece_desc(pe[j]['pieces'][0]) == want
+        ctx.expect(okp, 'C04:promise-position-not-bound', '%s: the transcript does not hold one promise entry per commitment in order (absent = 0): positions are not bound' % case['name'],
+                   cfg, 'challenges_unchanged', {'n': n, 'x': x, 'm': m, 'cap': mc['cap'], 'datum': 'promise-position', 'rounds': rounds})
     if len(ctx.case_samples) < 2:
         ctx.case_samples.append({'scenario': cfg, 'log_of_final_challenge': [str(t)[:120] for t in lv.describe(ids['e'])][:40]})
 
